@@ -23,6 +23,10 @@ def main():
         return 2
     sh(f"git -C /repo apply {patch}")
     out = {}
+    # the evidence files describe the unchanged tree: keep them out of reach of runs against a changed one
+    import shutil, tempfile
+    keep = tempfile.mkdtemp(prefix="evidence-keep-")
+    shutil.copytree("/verif/evidence", os.path.join(keep, "evidence"))
     try:
         for p in props:
             t0 = time.time()
@@ -32,6 +36,9 @@ def main():
             out[p] = {"exit": r.returncode, "violations": viol, "observed": [o.strip()[:300] for o in obs[:2]], "wall_s": round(time.time() - t0, 1)}
             print(p, "exit", r.returncode, viol[:1], (obs[:1] or [""])[0].strip()[:200])
     finally:
+        shutil.rmtree("/verif/evidence", ignore_errors=True)
+        shutil.copytree(os.path.join(keep, "evidence"), "/verif/evidence")
+        shutil.rmtree(keep, ignore_errors=True)
         sh(f"git -C /repo apply -R {patch}")
         st = sh("git -C /repo status --porcelain").stdout.strip()
         if st:
